@@ -82,6 +82,8 @@ CHECKS = {
             {"name": "dial", "pkg": "pkg/plugin/processor/egress", "harness": "c18", "run": "^TestVerifC18Dial$", "shards": 8, "shards_thorough": 16},
             {"name": "policy", "pkg": "pkg/plugin/processor/egress", "harness": "c18", "run": "^TestVerifC18Policy$", "shards": 8},
             {"name": "dialseq", "pkg": "pkg/plugin/processor/egress", "harness": "c18", "run": "^TestVerifC18DialSequences$", "shards": 8, "shards_thorough": 16},
+            # where a policy is BOUND to a processor: processor.Service at cold start, live reconfigure and restart
+            {"name": "binding", "pkg": "pkg/processor", "harness": "c18bind", "run": "^TestVerifC18Binding$", "shards": 8, "shards_thorough": 16},
         ],
     },
     "C19": {
